@@ -307,6 +307,55 @@ impl LspSession {
         self.wait_diagnostics(&uri, after)
     }
 
+    /// Barrier: a request whose response can only arrive after everything sent before it was handled
+    /// (handlers publish before they finish; the server answers requests in order of arrival as
+    /// long as no earlier handler is suspended on a client round trip, which only happens after
+    /// its publish).
+    pub fn sync(&mut self) -> Result<(), LspErr> {
+        self.request("workspace/symbol", json!({"query": "\u{1}sync"})).map(|_| ())
+    }
+
+    /// didOpen / didChange, then wait (bounded) for the publish it triggers. Returns what the client
+    /// has last received for the document: the new publish if one arrived within `grace_ms` after the
+    /// barrier, else whatever was published before (None if nothing ever was). Responses and
+    /// server-initiated notifications travel on different queues inside tower-lsp, so the barrier
+    /// alone does not order them.
+    pub fn open_sync(&mut self, path: &str, text: &str, grace_ms: u64) -> Result<Option<Value>, LspErr> {
+        let uri = uri_of(path);
+        let before = self.diag_count;
+        self.notify("textDocument/didOpen", json!({"textDocument": {"uri": uri, "languageId": "python", "version": 1, "text": text}}))?;
+        self.sync()?;
+        self.await_publish(&uri, before, grace_ms)
+    }
+
+    pub fn change_sync(&mut self, path: &str, version: i64, text: &str, grace_ms: u64) -> Result<Option<Value>, LspErr> {
+        let uri = uri_of(path);
+        let before = self.diag_count;
+        self.notify("textDocument/didChange", json!({"textDocument": {"uri": uri, "version": version}, "contentChanges": [{"text": text}]}))?;
+        self.sync()?;
+        self.await_publish(&uri, before, grace_ms)
+    }
+
+    fn await_publish(&mut self, uri: &str, before: u64, grace_ms: u64) -> Result<Option<Value>, LspErr> {
+        let deadline = Instant::now() + Duration::from_millis(grace_ms);
+        loop {
+            if let Some((c, d)) = self.diags.get(uri) {
+                if *c > before {
+                    return Ok(Some(d.clone()));
+                }
+            }
+            match self.recv(deadline) {
+                Ok(msg) => {
+                    if let Some(r) = self.absorb(msg)? {
+                        self.pending.push(r);
+                    }
+                }
+                Err(LspErr::Timeout(_)) => return Ok(self.diags.get(uri).map(|(_, d)| d.clone())),
+                Err(e) => return Err(e),
+            }
+        }
+    }
+
     pub fn close(&mut self, path: &str) -> Result<(), LspErr> {
         self.notify("textDocument/didClose", json!({"textDocument": {"uri": uri_of(path)}}))
     }
